@@ -757,7 +757,14 @@ class SymInt:
         return hash(concretize_unique(self, "hash"))
 
     def __index__(self):
-        return concretize_unique(self, "index")
+        try:
+            return concretize_unique(self, "index")
+        except Unsupported:
+            pass
+        # an index into a short sequence: small values are enumerated (one path each), the rest is not modelled
+        if tb(conj(self >= -64, self <= 64)):
+            return concretize(self, "index", cap=140)
+        raise Unsupported("concretisation (index) of non-unique %s outside [-64, 64]" % (self.e,))
 
     def __int__(self):
         return concretize_unique(self, "int")
